@@ -5,6 +5,22 @@ from vf.explore import Explorer
 from vf.sched import Sched
 
 
+def _preimport():
+    """import every library module up front: a first import performed inside a scheduled thread holds the interpreter's
+    per-module import lock (not a lock the scheduler owns) while the thread is suspended at a line of the module body, and
+    the other thread then blocks on it for real"""
+    import importlib
+    import pkgutil
+    import bits
+    for m in pkgutil.walk_packages(bits.__path__, "bits."):
+        if m.name.endswith("__main__") or m.name.startswith("bits.cli"):
+            continue
+        try:
+            importlib.import_module(m.name)
+        except Exception:
+            pass
+
+
 def _one_in_child(run, judge, prefix, bound, warmup=None):
     """run one execution in a forked child (a fresh copy of the process image: lazily built module state of the library is
     exactly as at the fork) and ship back the choice points and the verdicts"""
@@ -21,7 +37,7 @@ def _one_in_child(run, judge, prefix, bound, warmup=None):
             ctx, obs = ex.one(prefix)
             results, errors, abort = obs
             viol = [("concurrent/non-termination", "calls did not finish within the step horizon")] if abort == "horizon" else list(judge(results, errors))
-            payload = {"choices": ctx.choices, "points": [(i, n, costs, cb) for (i, n, costs, cb, st) in ctx.points], "viol": viol}
+            payload = {"choices": ctx.choices, "points": [(i, n, costs, cb, st[1] if isinstance(st, tuple) and st and st[0] == "hit" else 1) for (i, n, costs, cb, st) in ctx.points], "viol": viol}
         except BaseException:
             import traceback
             payload = {"error": traceback.format_exc()[-2000:]}
@@ -35,12 +51,14 @@ def _one_in_child(run, judge, prefix, bound, warmup=None):
     return pickle.loads(data)
 
 
-def explore_calls(acc, calls, files, bound, judge, kind, case, max_exec=50_000, horizon=200_000, warmup=None):
+def explore_calls(acc, calls, files, bound, judge, kind, case, max_exec=50_000, horizon=200_000, warmup=None, max_hits=None):
     """calls: list of zero-argument callables (one per thread) returning an observation; files: tuple of path suffixes
     whose frames are scheduling points; judge(observations, errors) -> [(key, desc)].  Every execution runs in its own
     forked child, so the calls are always the FIRST calls of their process image."""
+    _preimport()
+
     def want(code):
-        return code.co_filename.endswith(files)
+        return code.co_name != "<module>" and code.co_filename.endswith(files)
 
     def run(ctx):
         results = [None] * len(calls)
@@ -54,7 +72,7 @@ def explore_calls(acc, calls, files, bound, judge, kind, case, max_exec=50_000, 
         return results, {t: f"{type(e).__name__}: {e}" for t, e in sch.errors.items()}, sch.abort
 
     stack = [[]]
-    n_exec = transitions = 0
+    n_exec = transitions = skipped_hits = 0
     capped = False
     while stack:
         if n_exec >= max_exec:
@@ -69,7 +87,10 @@ def explore_calls(acc, calls, files, bound, judge, kind, case, max_exec=50_000, 
         for key, desc in r["viol"]:
             sw = sum(1 for c in r["choices"] if c)
             acc.violation(kind, dict(case, choices=r["choices"]), key, desc + f" [schedule with {sw} thread switch(es) of {len(r['choices'])} points]")
-        for (i, n, costs, cost_before) in r["points"]:
+        for (i, n, costs, cost_before, hit) in r["points"]:
+            if max_hits is not None and hit > max_hits and n > 1:
+                skipped_hits += 1      # loop bound: preemption offered only at the first max_hits executions of a line per thread
+                continue
             for alt in range(1, n):
                 c = costs[alt] if costs else 1
                 if bound is not None and cost_before + c > bound:
@@ -84,16 +105,18 @@ def explore_calls(acc, calls, files, bound, judge, kind, case, max_exec=50_000, 
 
     class R:
         executions = n_exec
+        skipped = skipped_hits
     acc.nontrivial += max(0, n_exec - 1)
     return R
 
 
 def replay_calls(calls, files, choices, judge, horizon=200_000, warmup=None):
+    _preimport()
     if warmup is not None:
         warmup()
 
     def want(code):
-        return code.co_filename.endswith(files)
+        return code.co_name != "<module>" and code.co_filename.endswith(files)
 
     def run(ctx):
         results = [None] * len(calls)
@@ -109,3 +132,36 @@ def replay_calls(calls, files, choices, judge, horizon=200_000, warmup=None):
     ctx, obs = ex.one(choices)
     results, errors, abort = obs
     return judge(results, errors)
+
+
+# ---------------------------------------------------------------------------------------------------------------------
+# generic form: the ordinary single-case checks of a property (kind, case) run concurrently in two threads, optionally
+# after sequential warm-up cases.  The oracle is the single-case oracle itself (reference-model comparison), so "right when
+# called alone, wrong when another thread is inside the library" is a violation with the schedule as its replay.
+def _case_setup(chk, prop, scen):
+    threads = scen["threads"]
+    calls = [(lambda k=k, c=c: chk(k, c)) for k, c in threads]
+    warm = (lambda: [chk(k, c) for k, c in scen["warm"]]) if scen.get("warm") else None
+
+    def judge(results, errors):
+        out = []
+        for i, (k, c) in enumerate(threads):
+            if i in errors:
+                out.append((f"{prop}/concurrent/check-raised", f"thread {i} ({k}): {errors[i]}"))
+                continue
+            for key, desc in results[i] or []:
+                out.append((key + "/concurrent", f"thread {i} ({k}) with {len(threads) - 1} other call(s) in flight"
+                            f"{' after ' + str(len(scen['warm'])) + ' warm-up call(s)' if scen.get('warm') else ''}: {desc}"))
+        return out
+    return calls, warm, judge
+
+
+def explore_cases(acc, chk, prop, scen, files, bound, max_exec=20_000, max_hits=None):
+    calls, warm, judge = _case_setup(chk, prop, scen)
+    case = {"threads": [list(t) for t in scen["threads"]], "warm": [list(t) for t in scen.get("warm", [])]}
+    return explore_calls(acc, calls, files, bound, judge, "concurcase", case, max_exec=max_exec, warmup=warm, max_hits=max_hits)
+
+
+def replay_cases(chk, prop, case, files):
+    calls, warm, judge = _case_setup(chk, prop, case)
+    return replay_calls(calls, files, case["choices"], judge, warmup=warm)
